@@ -88,11 +88,14 @@ RectCoords(g) ==
       h == g.r2 - g.r1 + 1
   IN  [i \in 1..(h * w) |-> <<g.r1 + ((i - 1) \div w), g.c1 + ((i - 1) % w)>>]
 
-(* Worksheet::set_style_by_range; g.k = "rect" (A1:B2), "rows" (1:3: row entries only), "cols" (A:B) *)
-PostSetStyleByRange(st, g, s) ==
-  CASE g.k = "rect" -> FoldLeft(LAMBDA a, k : PostSetStyle(a, k[1], k[2], s), st, RectCoords(g))
-    [] g.k = "rows" -> FoldLeft(LAMBDA a, r : LET u == RowsGetMut(a, r) IN [u EXCEPT !.rows[r].s = s], st, Upto(g.r1, g.r2))
-    [] g.k = "cols" -> FoldLeft(LAMBDA a, c : LET u == ColsGetMut(a, c) IN [u EXCEPT !.cols[c] = s], st, Upto(g.c1, g.c2))
+(* Worksheet::set_style_by_range on a cell range A1:B2: set_style on every coordinate, row by row.  (Whole-row
+   and whole-column forms "1:3" / "A:B" are rejected by helper::range::get_start_and_end_point with the assertion
+   "Non-standard range." before anything is touched, so they are outside the contract.) *)
+PostSetStyleByRange(st, g, s) == FoldLeft(LAMBDA a, k : PostSetStyle(a, k[1], k[2], s), st, RectCoords(g))
+(* styling a row / column entry (get_row_dimension_mut(r).set_style, get_column_dimension_by_number_mut(c)
+   .set_style): not operations of the property, used to build initial sheets *)
+WithRowStyle(st, r, s) == LET u == RowsGetMut(st, r) IN [u EXCEPT !.rows[r].s = s]
+WithColStyle(st, c, s) == LET u == ColsGetMut(st, c) IN [u EXCEPT !.cols[c] = s]
 
 (* Worksheet::insert_new_row / insert_new_column_by_index (and the workbook-level entry points):
    column table or row table first, then every cell's stored coordinate, then the rebuild *)
@@ -165,11 +168,7 @@ CanInsert(st, ax, p, n) == p >= 1 /\ n >= 1 /\ p <= Lines(ax) /\ Extent(st, ax) 
 CanRemove(ax, p, n)     == p >= 1 /\ n >= 1 /\ p + n - 1 <= Lines(ax)
 RectInGrid(g) == RectOK(g) /\ g.r1 >= 1 /\ g.c1 >= 1 /\ g.r2 <= MaxRow /\ g.c2 <= MaxCol
 CanMove(g, dr, dc) == RectInGrid(g) /\ g.r1 + dr >= 1 /\ g.c1 + dc >= 1 /\ g.r2 + dr <= MaxRow /\ g.c2 + dc <= MaxCol
-CanStyleRange(g) ==
-  CASE g.k = "rect" -> RectInGrid(g)
-    [] g.k = "rows" -> g.r1 >= 1 /\ g.r1 <= g.r2 /\ g.r2 <= MaxRow
-    [] g.k = "cols" -> g.c1 >= 1 /\ g.c1 <= g.c2 /\ g.c2 <= MaxCol
-    [] OTHER -> FALSE
+CanStyleRange(g) == RectInGrid(g)
 CanCopyRowStyling(src, dst, hs, c1, he, c2) ==
   src \in 1..MaxRow /\ dst \in 1..MaxRow /\ (hs => c1 \in 1..MaxCol) /\ (he => c2 \in 1..MaxCol)
 CanCopyColStyling(src, dst, hs, r1, he, r2) ==
